@@ -273,6 +273,35 @@ func (rn *runner) boundarySweep() {
 		rn.sweepReq("v2Search", "v2", "carol", "BIG", "POST", "big", "/points/search", q2, l%2 == 1, "vamana.q.vector.4096")
 		rn.sweepReq("v2Insert", "v2", "carol", "BIG", "POST", "big", "/points", Obj("points", Arr(Obj("_id", Str(g.uuid()), "v", g.vec(l)))), l%2 == 0, "stored.vector.4096")
 	}
+	// ---- the same id in two shards: an insert of an existing id that is routed to another shard is accepted;
+	// an update / delete of such an id succeeds in both shards (valid requests throughout: 200 expected)
+	if rn.modelledReq("v2Create", "v2", "dave", "BASIC", "POST", "", "", Obj("id", Str("dupcol"), "indexSchema", Obj("k", Obj("type", Str("integer")))), false, "boundary:dup-id", false) == 200 {
+		rn.w.hist["dave/dupcol"] = append([]string{}, rn.w.hist["dave/"][len(rn.w.hist["dave/"])-1])
+		rn.refresh()
+		var ids []string
+		pts := &N{K: 'a'}
+		for i := 0; i < maxShardPointCount+2; i++ {
+			id := g.uuid()
+			ids = append(ids, id)
+			pts.A = append(pts.A, Obj("_id", Str(id), "k", Int(int64(i))))
+		}
+		rn.modelledReq("v2Insert", "v2", "dave", "BASIC", "POST", "dupcol", "/points", Obj("points", pts), false, "boundary:dup-id", false)
+		rn.refresh()
+		for _, id := range ids {
+			rn.modelledReq("v2Insert", "v2", "dave", "BASIC", "POST", "dupcol", "/points", Obj("points", Arr(Obj("_id", Str(id), "k", Int(99)))), false, "boundary:dup-id", false)
+			rn.refresh()
+		}
+		upd, del := &N{K: 'a'}, &N{K: 'a'}
+		for _, id := range ids {
+			upd.A = append(upd.A, Obj("_id", Str(id), "k", Int(7)))
+			del.A = append(del.A, Str(id))
+		}
+		rn.modelledReq("v2Update", "v2", "dave", "BASIC", "PUT", "dupcol", "/points", Obj("points", upd), false, "boundary:dup-id", false)
+		rn.modelledReq("v2Delete", "v2", "dave", "BASIC", "DELETE", "dupcol", "/points", Obj("ids", del), false, "boundary:dup-id", false)
+		rn.w.c.do(request{"dave", "BASIC", "DELETE", "/v2/collections/dupcol", "", nil})
+		delete(rn.w.hist, "dave/dupcol")
+		rn.refresh()
+	}
 	// ---- v1 vector length limit 2000 (needs v1 collections of that dimension; carol has one free slot)
 	for _, d := range []int{2000, 2001} {
 		id := "v1dim" + intToStr(d)
